@@ -595,6 +595,8 @@ func init() {
 		checkEngineInvariants(r, prog, "c15") // a part written in brackets holds whatever characters it holds (U+FFFD is one)
 		checkRuleRefAndClasses(r, prog, "c15")
 		// the parts looked up are the parts of this expression's text: the tree evaluated is the parse of exactly that text
+		r.importing = "C18"
+		checkGetOpts(r, prog, a, "c18") // no spelling costs more than another can afford: no budget unless one is asked for
 		r.importing = "C03"
 		checkASTIntegrity(r, prog, a, "c03")
 		checkTreeHandedOver(r, prog, a, "c03")
